@@ -6,6 +6,7 @@ import (
 	"iter"
 	"math/rand"
 	"reflect"
+	"strconv"
 	"unsafe"
 
 	"github.com/welllog/golib/listz"
@@ -156,7 +157,49 @@ func levelOf(ptr any) int {
 
 // towers reads level, len and every level's chain (as formatted keys) by reflection.
 // bad is non-empty when a node's slot count disagrees with the chains it is linked in.
-func towers(ptr any, showKey func(reflect.Value) string) (level, n int, isNil bool, chains [][]string, bad string) {
+// idTable numbers the node objects of one list in the order they are first seen on the level-0
+// chain (the harness looks after every single insert, so this is the allocation order, which is
+// what the pointer-level model uses as node ids). An id is never reused.
+type idTable struct {
+	ids  map[unsafe.Pointer]int
+	next int
+}
+
+func newIDTable() *idTable { return &idTable{ids: map[unsafe.Pointer]int{}} }
+
+// discover walks the level-0 chain and numbers the node objects not seen before.
+func (t *idTable) discover(ptr any) {
+	hn := reflect.ValueOf(ptr).Elem().FieldByName("head").FieldByName("next")
+	if hn.IsNil() || hn.Len() == 0 {
+		return
+	}
+	steps := 0
+	for p := hn.Index(0); !p.IsNil(); {
+		up := p.UnsafePointer()
+		if _, ok := t.ids[up]; !ok {
+			t.ids[up] = t.next
+			t.next++
+		}
+		nx := p.Elem().FieldByName("next")
+		if nx.Len() == 0 {
+			return
+		}
+		p = nx.Index(0)
+		if steps++; steps > t.next+1 { // a cycle: stop, the dump reports it
+			return
+		}
+	}
+}
+
+func (t *idTable) show(p unsafe.Pointer) string {
+	if id, ok := t.ids[p]; ok {
+		return strconv.Itoa(id)
+	}
+	return "?" // linked at an upper level only
+}
+
+func towers(ptr any, showKey func(reflect.Value) string, ids *idTable) (level, n int, isNil bool, chains [][]string, bad string) {
+	ids.discover(ptr)
 	v := reflect.ValueOf(ptr).Elem()
 	level = int(v.FieldByName("level").Int())
 	n = int(v.FieldByName("len").Int())
@@ -178,7 +221,7 @@ func towers(ptr any, showKey func(reflect.Value) string) (level, n int, isNil bo
 			}
 			seen[p.UnsafePointer()] = i + 1
 			node := p.Elem()
-			ch = append(ch, showKey(node.FieldByName("key")))
+			ch = append(ch, showKey(node.FieldByName("key"))+"#"+ids.show(p.UnsafePointer()))
 			linked[p.UnsafePointer()]++
 			nx := node.FieldByName("next")
 			slots[p.UnsafePointer()] = nx.Len()
